@@ -190,6 +190,7 @@ func init() {
 		ruleMemberLoops(inPkgs("clip/smartclip."), 10, 0),
 		ruleRegionCodes(append(append([]regionFunc(nil), clipRegionFuncs...), regionFunc{"clip/smartclip", "bitCodeOpen", true}), false),
 		ruleCornerTables,
+		ruleEndpointOrder,
 		ruleCompactionIndex(inPkgs("clip/smartclip."), 1),
 	)
 
